@@ -355,6 +355,15 @@ def _invalid_cases():
     return out
 
 
+def _all_nsides():
+    """every number of sides 3..400 (finite, enumerated): three radii/centres"""
+    out = []
+    for n in range(3, 401):
+        for r, c in ((1, (0, 0)), (F(7, 2), (F(1, 3), -2)), (2.5, (10.25, -3.5))):
+            out.append({"nsides": n, "radius": r, "center": c})
+    return out
+
+
 def parts(tier):
     q = tier == "quick"
     centre = st.tuples(S.any_numbers(50), S.any_numbers(50))
@@ -379,5 +388,6 @@ def parts(tier):
         Part("circle", judge_circle, cir, n=600 if q else 12000),
         Part("circle-convergence", judge_circle_converges, conv, n=100 if q else 2000),
         Part("polygon", judge_polygon, poly(), n=800 if q else 15000),
+        Part("regular-every-nsides", judge_regular, cases=_all_nsides, exhaustive=True),
         Part("invalid", judge_invalid, cases=_invalid_cases, exhaustive=True),
     ]
